@@ -45,6 +45,21 @@ def _expect_raises(exc: Any, fn, clause: str, detail: Any) -> None:
     require(False, clause, f"{detail}: did not raise {ename}")
 
 
+_PROTO: list = []
+
+
+def _has_items_protocol():
+    if not _PROTO:
+        from typing import Protocol, runtime_checkable
+
+        @runtime_checkable
+        class HasItems(Protocol):
+            items: tuple
+
+        _PROTO.append(HasItems)
+    return _PROTO[0]
+
+
 def check_tree(data: dict, lab: Labels) -> None:
     from pyoak.tree import Tree
 
@@ -179,6 +194,20 @@ def check_tree(data: dict, lab: Labels) -> None:
             require(got is exp, "get_first_ancestor_of_type", f"node {n.uid}: registered marker class {extra}")
             got_x = tree.get_first_ancestor_of_type(b.of(n), marker, exact_type=True)
             require(got_x is None, "get_first_ancestor_of_type", f"node {n.uid}: exact type of an abstract marker")
+
+    # a runtime-checkable protocol with a data member ("anything that has an `items` attribute"):
+    # an instance test like any other, alone and inside a tuple
+    proto = _has_items_protocol()
+    for n in nodes:
+        for extra in ((), ("LeafA",)):
+            exp = None
+            for u in chain(n.uid):
+                if hasattr(b.live[u], "items") or any(M.is_subclass(by_uid[u].cls, s) for s in extra):
+                    exp = b.live[u]
+                    break
+            arg3: Any = proto if not extra else (*(M.cls(c) for c in extra), proto)
+            got = tree.get_first_ancestor_of_type(b.of(n), arg3)
+            require(got is exp, "get_first_ancestor_of_type", f"node {n.uid}: runtime-checkable protocol {extra}")
 
     # xpath: walk it
     seen: dict[str, int] = {}
